@@ -19,7 +19,7 @@ def c06Ctx : P Locked.Ctx := do
   let k ← nat; let v ← nat
   pure <| match k with | 0 => .lock v | 1 => .ident | _ => .user v
 
-/-- ops: `0 tgt tag` call | `1 a 0` cb | `2 raised 0` ret | `3 m 0 <ctx list>` reg | `4 m 0` unreg -/
+/-- ops: `0 tgt tag` call | `1 a 0` cb | `2 raised 0` ret | `3 m 0 <ctx list>` reg | `4 m 0` unreg | `5 0 0` snap -/
 def c06Op : P Locked.Op := do
   let k ← nat; let a ← nat; let b ← nat
   match k with
@@ -27,9 +27,10 @@ def c06Op : P Locked.Op := do
   | 1 => pure (.cb a)
   | 2 => pure (.ret (b != 0 || a != 0))
   | 3 => do let xs ← list c06Ctx; pure (.reg a xs)
-  | _ => pure (.unreg a)
+  | 4 => pure (.unreg a)
+  | _ => pure .snap
 
-/-- events: 4 naturals each; `5 t m n` (reg) is followed by `n` contexts (2 naturals each); `6 t m 0` unreg -/
+/-- events: 4 naturals each; `5 t m n` (reg) is followed by `n` contexts (2 naturals each); `6 t m 0` unreg; `7 t 0 0` snap -/
 def c06Ev : P Locked.Ev := do
   let k ← nat; let t ← nat; let a ← nat; let b ← nat
   match k with
@@ -39,7 +40,8 @@ def c06Ev : P Locked.Ev := do
   | 3 => pure (.exit t (match a with | 0 => .lock b | 1 => .ident | _ => .user b))
   | 4 => pure (.callEnd t (a != 0))
   | 5 => do let xs ← many c06Ctx b; pure (.reg t a xs)
-  | _ => pure (.unreg t a)
+  | 6 => pure (.unreg t a)
+  | _ => pure (.snap t)
 
 def c06CfgP : P Locked.Cfg := do
   let hsm ← bool
@@ -59,6 +61,7 @@ def encEv : Locked.Ev → List Nat
   | .callEnd t r => [4, t, if r then 1 else 0, 0]
   | .reg t m xs => [5, t, m, xs.length] ++ xs.flatMap encCtx
   | .unreg t m => [6, t, m, 0]
+  | .snap t => [7, t, 0, 0]
 
 def c06Eng (a ms : Nat) : Nat := (ms * 31 + a + 1) % 1000003
 
